@@ -71,8 +71,10 @@ type BindingSpec struct {
 
 // MinDepositRef is the harness's reference for the minimum deposit of a price.
 func MinDepositRef(k keeper.Keeper, ctx sdk.Context, price sdk.Int) sdk.Int {
-	need := price.Mul(sdk.NewInt(k.MinDepositMultiple(ctx)))
-	minParam := k.MinDeposit(ctx).AmountOf(Denom)
+	// from the parameters as stored, not as the keeper's getters (code under test) report them
+	prm := vf.Params(ctx)
+	need := price.Mul(sdk.NewInt(prm.MinDepositMultiple))
+	minParam := prm.MinDeposit.AmountOf(Denom)
 	return sdk.MaxInt(need, minParam)
 }
 
